@@ -2,7 +2,7 @@
 (* (M) The label memory of the assembler (PendLabel.tla: LabelHandle / LabelModify / LabelReset, InsertPadding,   *)
 (* CodeSHARED's snapshot, two passes when a symbol is referenced in front of its definition) against the          *)
 (* declarative side, one TLC state per source statement, on every program                                         *)
-(*     [SHARED of the label in front of everything]  block  [second block]                                        *)
+(*     [SHARED of the label in front of everything]  block  [second block]        x target 68000 / MSP430          *)
 (* block = a label alone on its line at an even / odd address, every sequence of at most MaxMids intervening       *)
 (* statements (SHARED of that label / of another one, PUBLIC, GLOBAL, EQU / SET using the label, one data byte,    *)
 (* empty or comment line, LISTING, call of an empty macro, call of a macro that expands to SHARED of the label),    *)
@@ -19,37 +19,38 @@
 (* the share file states the address of the pad byte, every other report the address behind it.                   *)
 EXTENDS PendLabel
 CONSTANTS MaxMids, Pairs
-VARIABLES prog, i, pass, s
-vars == <<prog, i, pass, s>>
+VARIABLES prog, items, i, pass, s
+vars == <<prog, items, i, pass, s>>
 
 MidSet == Range(MidKinds)
 MidSeqs(n) == UNION {[1..q -> MidSet] : q \in 0..n}
 Blocks(n, fols) == [odd : BOOLEAN, mids : MidSeqs(n), fol : fols]
 Fols == Range(FolKinds)
-Programs == {[blocks |-> <<b>>, fwd |-> f] : b \in Blocks(MaxMids, Fols \cup {"end"}), f \in BOOLEAN}
-            \cup (IF Pairs THEN {[blocks |-> <<b1, b2>>, fwd |-> f] :
-                                  b1 \in Blocks(1, Fols), b2 \in Blocks(1, Fols \cup {"end"}), f \in BOOLEAN}
+Programs == {[blocks |-> <<b>>, fwd |-> f, tgt |-> t] : b \in Blocks(MaxMids, Fols \cup {"end"}), f \in BOOLEAN, t \in Targets}
+            \cup (IF Pairs THEN {[blocks |-> <<b1, b2>>, fwd |-> f, tgt |-> t] :
+                                  b1 \in Blocks(1, Fols), b2 \in Blocks(1, Fols \cup {"end"}), f \in BOOLEAN, t \in Targets}
                   ELSE {})
 
-Items == Flatten(prog)
-Names == NamesOf(Items)
-MCInit == /\ prog \in Programs /\ i = 1 /\ pass = 1
+Items == items
+Names == DOMAIN s.val
+MCInit == /\ prog \in Programs /\ items = Flatten(prog) /\ i = 1 /\ pass = 1
           /\ s = S0(NamesOf(Flatten(prog)), NoValues(NamesOf(Flatten(prog))))
 Done == i > Len(Items) /\ (pass = 2 \/ ~s.fwd)
 MCNext == \/ /\ i <= Len(Items)
-             /\ s' = Statement(s, i, Items[i]) /\ i' = i + 1 /\ UNCHANGED <<prog, pass>>
+             /\ s' = Statement(s, i, Items[i]) /\ i' = i + 1 /\ UNCHANGED <<prog, items, pass>>
           \/ /\ i > Len(Items) /\ pass = 1 /\ s.fwd                      \* one more pass: values kept, nothing pending
-             /\ s' = S0(Names, s.val) /\ i' = 1 /\ pass' = 2 /\ UNCHANGED prog
+             /\ s' = S0(Names, s.val) /\ i' = 1 /\ pass' = 2 /\ UNCHANGED <<prog, items>>
 Spec == MCInit /\ [][MCNext]_vars
 
 Final == Done => /\ ShareFinal(s) /\ CodeFinal(s) /\ FinalAsText(prog, s) /\ MovedIff(prog, s)
                  /\ CopiesFinal(prog, s) /\ LayoutSane(Items, s)
                  /\ \A n \in Names : s.val[n] = Assemble(Items, Names).val[n]      \* the recursive form used by _Gen / _Trace
+ShareStatesFinal == Done => ShareFinal(s)          \* the property alone (PendLabel_MC_dev.cfg: refuted)
 Sane == /\ s.pend # "" => s.val[s.pend] = s.pendv
         /\ (pass = 1 /\ ~s.fwd) => ShareFinal(s)        \* within a pass without forward references the share file is never ahead
 
 \* the seeded shape, both rules
-ASSUME LET P  == [blocks |-> <<[odd |-> TRUE, mids |-> <<"shself">>, fol |-> "insn"]>>, fwd |-> FALSE]
+ASSUME LET P  == [blocks |-> <<[odd |-> TRUE, mids |-> <<"shself">>, fol |-> "insn"]>>, fwd |-> FALSE, tgt |-> "68k"]
            it == Flatten(P)
            r  == Assemble(it, NamesOf(it))
        IN  /\ r.share[1].name = "L1" /\ r.share[1].val = Base + Span + 1
